@@ -220,6 +220,14 @@ def run_for(pid, verbose=True, only=None):
             print(r.stdout[-1500:])
             print(f"ANALYSIS-ERROR property={pid}: a canonical form fails its own unit checks")
             return 2
+    # the frame condition on arguments has unit cases of its own (positive and negative; tools/argfx_cases.py)
+    if not only:
+        r = subprocess.run([sys.executable, str(VERIF / "tools" / "argfx_cases.py")], cwd=str(VERIF), capture_output=True, text=True, timeout=300)
+        print(f"selftest {pid}: {(r.stdout.strip().splitlines() or [''])[-1]}")
+        if r.returncode != 0:
+            print(r.stdout[-1500:])
+            print(f"ANALYSIS-ERROR property={pid}: the argument-effects analysis fails its own unit cases")
+            return 2
     # the automatic benign twin: every local variable of every function renamed (tools/alpha_twin.py)
     if not only:
         r = subprocess.run([sys.executable, str(VERIF / "tools" / "alpha_twin.py"), pid], cwd=str(VERIF), capture_output=True, text=True, timeout=900)
